@@ -7,6 +7,8 @@ package c12
 // document of the case.
 
 import (
+	"bytes"
+	"runtime"
 	"strconv"
 	"strings"
 	"sync"
@@ -34,6 +36,20 @@ func (pullLoader) LoadConfig(caddy.Context) ([]byte, error) {
 	defer pullMu.Unlock()
 	pullCalls++
 	return append([]byte(nil), pullBytes...), nil
+}
+
+// waitPullDone returns when no goroutine started by finishSettingUp (the one that applies a pulled
+// config) is left: its stack carries the name of the closure it runs. Independent of machine load.
+func waitPullDone() {
+	buf := make([]byte, 4<<20)
+	deadline := time.Now().Add(20 * time.Second)
+	for time.Now().Before(deadline) {
+		n := runtime.Stack(buf, true)
+		if !bytes.Contains(buf[:n], []byte("finishSettingUp")) {
+			return
+		}
+		time.Sleep(time.Millisecond)
+	}
 }
 
 func runPull(line, appsS, pulledS string) core.Outcome {
@@ -81,10 +97,7 @@ func runPull(line, appsS, pulledS string) core.Outcome {
 		time.Sleep(2 * time.Millisecond)
 	}
 	mid := caddy.ActiveContext().Context
-	for i := 0; i < 4; i++ {
-		time.Sleep(15 * time.Millisecond)
-		get("/config/")
-	}
+	waitPullDone()
 	end, fails := observe()
 	o.Failures = append(o.Failures, fails...)
 	loads := 0
@@ -162,8 +175,7 @@ func runPull(line, appsS, pulledS string) core.Outcome {
 			follow = "amb"
 		} else {
 			w := do("PATCH", p, []byte(`{"w":1}`), map[string]string{"Content-Type": "application/json"})
-			time.Sleep(15 * time.Millisecond)
-			get("/config/") // a patch that brings back the loader section would pull again: let it settle
+			waitPullDone() // a patch of a document that still names the loader pulls again: let it finish
 			after, _ := observe()
 			follow = showResp(w, &o.Failures, p) + "/" + after.cfgEnc
 			o.Tags = append(o.Tags, "pull:id-write")
